@@ -8,13 +8,9 @@ import EcModel.Lemmas.EepromCrc
 namespace Ec.C14
 open Ec Ec.Eeprom Ec.EepromSpec
 
-theorem startAt_small (m : Mode) (w n : Nat) (h : 2 * w + 2 * (n / 2) < 65536) :
-    startAt m w n = ret ⟨2 * w, 2 * w + 2 * (n / 2)⟩ := by
-  unfold startAt Range.new
-  rw [mul16_ok _ _ _ _ (by omega), mul16_ok _ _ _ _ (by omega)]
-  simp only [bind_ret]
-  rw [add16_ok _ _ _ _ (by omega)]
-  simp only [bind_ret]
+theorem startAt_small (m : Mode) (w n : Nat) (h : 2 * w + 2 * ((n + 1) / 2) ≤ 131072) :
+    startAt m w n = ret ⟨2 * w, 2 * w + 2 * ((n + 1) / 2)⟩ := by
+  unfold startAt Range.new ADDRESS_SPACE_BYTES
   congr 2 <;> omega
 
 /-- **Station alias write.** For every build mode, every device memory, every chunk size (≥ 2; real
@@ -42,18 +38,16 @@ theorem alias_two_words (m : Mode) (d : Dev) (hcs : 2 ≤ d.cs) (al : Nat) (ha :
     rw [startAt_small m 0 14 (by decide), startAt_small m (8 / 2) 2 (by decide),
       startAt_small m (14 / 2) 2 (by decide)]
     simp only [bindW, liftW, ret, eofToOverrun, hre.1]
-    rw [writeAll_even m _ _ (le16 al) (by decide) (by decide) (by decide) (by rw [le16_length])
-      (by rw [le16_length]; decide)]
+    rw [writeAll_fits m _ _ (le16 al) (by decide) (by decide) (by decide) (by rw [le16_length]; decide)]
     simp only []
-    rw [writeAll_even m _ _ (le16 _) (by decide) (by decide) (by decide) (by rw [le16_length])
-      (by rw [le16_length]; decide)]
+    rw [writeAll_fits m _ _ (le16 _) (by decide) (by decide) (by decide) (by rw [le16_length]; decide)]
     simp only [Dev.prov]
     have hcrc := crc8_lt (setRange (slice d.rd 0 14) 8 (le16 al))
     generalize crc8 (setRange (slice d.rd 0 14) 8 (le16 al)) = C at hcrc ⊢
     have e1 : C % 256 = C := Nat.mod_eq_of_lt hcrc
     have e2 : C / 256 % 256 = 0 := by rw [Nat.div_eq_of_lt hcrc]
     have e3 : al / 256 % 256 = al / 256 := Nat.mod_eq_of_lt (by omega)
-    simp [le16, wordsAt, e1, e2, e3]
+    simp [le16, wordsAt, padEven, e1, e2, e3]
   rw [hset]
   refine ⟨rfl, rfl, rfl, rfl, ?_⟩
   -- read back
@@ -113,92 +107,118 @@ theorem crc8_unique (bytes : List Nat) (hb : AllBytes bytes) (q r : Nat) (hr : r
   obtain ⟨q', hq'⟩ := crc8_division bytes hb
   exact crc_remainder_unique _ q r q' (crc8 bytes) h hq' hr (crc8_lt bytes)
 
-/-- **Generic write (`EepromRange::write`).** On a word-aligned window below 64 KiB (what `EepromRange::new`
-    produces without overflow), in both build modes: the call stores `k = min ⌈len/2⌉ (window words left)`
-    words taken from the buffer padded with one zero byte if its length is odd, at consecutive word addresses
-    starting at the cursor; reports `2k`; advances the cursor by `2k`; never panics; and no other byte of the
-    memory changes. -/
+/-- **Generic write (`EepromRange::write`).** On a word-aligned window inside the address space (what
+    `EepromRange::new` produces), with room left or nothing to write, in both build modes: the call stores
+    `k = min ⌈len/2⌉ (window words left)` words taken from the buffer padded with one zero byte if its length is
+    odd, at consecutive word addresses starting at the cursor; reports the `min len (2k)` buffer bytes it
+    consumed (never more than it was given); advances the cursor by `2k`; never panics; and no other byte of
+    the memory changes. -/
 theorem write_exact (m : Mode) (d : Dev) (r : Range) (buf : List Nat)
-    (hp : r.pos % 2 = 0) (he : r.endp % 2 = 0) (hle : r.pos ≤ r.endp) (hlt : r.endp < 65536) :
+    (hp : r.pos % 2 = 0) (he : r.endp % 2 = 0) (hle : r.pos ≤ r.endp) (hlt : r.endp ≤ 131072)
+    (hroom : buf.length = 0 ∨ r.pos < r.endp) :
     let k := min ((buf.length + 1) / 2) ((r.endp - r.pos) / 2)
     let stored := (padEven buf).take (2 * k)
-    (Range.write m d r buf).1.1 = .ok (2 * k, { r with pos := r.pos + 2 * k }) ∧
+    (Range.write m d r buf).1.1 = .ok (min buf.length (2 * k), { r with pos := r.pos + 2 * k }) ∧
     (Range.write m d r buf).1.2 = k ∧
     (Range.write m d r buf).2.rd = storeAt d.rd r.pos stored ∧
     (Range.write m d r buf).2.log = d.log ++ wordsAt (r.pos / 2) stored ∧
     stored.length = 2 * k ∧ r.pos + 2 * k ≤ r.endp := by
   intro k stored
-  rw [write_spec m d r buf hp he hle hlt]
+  rw [write_spec m d r buf hp he hle hlt hroom]
   refine ⟨rfl, rfl, rfl, rfl, ?_, ?_⟩
-  · have := padEven_length_even buf
-    have hl : (padEven buf).length = buf.length + buf.length % 2 := by
-      unfold padEven; split <;> simp <;> omega
+  · have hl := padEven_length buf
     simp only [stored, List.length_take, hl, k]; omega
   · simp only [k]; omega
 
+/-- A non-empty buffer on an exhausted window is refused with `Err(SectionOverrun)`; nothing is written. -/
+theorem write_exhausted (m : Mode) (d : Dev) (r : Range) (buf : List Nat) (hne : buf.length ≠ 0)
+    (hfull : r.endp - r.pos = 0) : Range.write m d r buf = ((.err .overrun, 0), d) :=
+  write_overrun m d r buf hne hfull
+
 /-- Nothing is ever written past the permitted range: every byte outside `[pos, end)` keeps its value. -/
 theorem write_never_past_end (m : Mode) (d : Dev) (r : Range) (buf : List Nat)
-    (hp : r.pos % 2 = 0) (he : r.endp % 2 = 0) (hle : r.pos ≤ r.endp) (hlt : r.endp < 65536)
+    (hp : r.pos % 2 = 0) (he : r.endp % 2 = 0) (hle : r.pos ≤ r.endp) (hlt : r.endp ≤ 131072)
     (a : Nat) (ha : a < r.pos ∨ r.endp ≤ a) :
     (Range.write m d r buf).2.rd a = d.rd a := by
-  have h := write_exact m d r buf hp he hle hlt
-  simp only at h
-  rw [h.2.2.1]
-  unfold storeAt
-  rw [if_neg]
-  have := h.2.2.2.2
-  omega
+  by_cases hroom : buf.length = 0 ∨ r.pos < r.endp
+  · have h := write_exact m d r buf hp he hle hlt hroom
+    simp only at h
+    rw [h.2.2.1]
+    unfold storeAt
+    rw [if_neg]
+    have := h.2.2.2.2
+    omega
+  · rw [write_exhausted m d r buf (by omega) (by omega)]
 
-/-- `write_all` (what `eeprom_write_dangerously` calls), PARTIAL: for an even number of bytes that fit the
-    window the payload is stored exactly and `Ok(())` is returned. -/
-theorem write_all_exact_partial (m : Mode) (d : Dev) (r : Range) (buf : List Nat)
-    (hp : r.pos % 2 = 0) (he : r.endp % 2 = 0) (hlt : r.endp < 65536)
-    (hlen : buf.length % 2 = 0) (hfit : r.pos + buf.length ≤ r.endp) :
-    (Range.writeAll m d r buf).1.1 = .ok { r with pos := r.pos + buf.length } ∧
-    (Range.writeAll m d r buf).2.rd = storeAt d.rd r.pos buf ∧
-    (Range.writeAll m d r buf).2.log = d.log ++ wordsAt (r.pos / 2) buf := by
-  rw [writeAll_even m d r buf hp he hlt hlen hfit]
+/-- **`write_all` (what `eeprom_write_dangerously` and `set_station_alias` call), payload fits** — any length,
+    odd or even (was `write_all_exact_partial`, even lengths only): the payload, padded with one zero byte if
+    its length is odd, is stored exactly, `Ok(())` is returned. -/
+theorem write_all_exact (m : Mode) (d : Dev) (r : Range) (buf : List Nat)
+    (hp : r.pos % 2 = 0) (he : r.endp % 2 = 0) (hlt : r.endp ≤ 131072)
+    (hfit : r.pos + 2 * ((buf.length + 1) / 2) ≤ r.endp) :
+    (Range.writeAll m d r buf).1.1 = .ok { r with pos := r.pos + 2 * ((buf.length + 1) / 2) } ∧
+    (Range.writeAll m d r buf).2.rd = storeAt d.rd r.pos (padEven buf) ∧
+    (Range.writeAll m d r buf).2.log = d.log ++ wordsAt (r.pos / 2) (padEven buf) := by
+  rw [writeAll_fits m d r buf hp he hlt hfit]
   exact ⟨rfl, rfl, rfl⟩
+
+/-- **`write_all`, payload longer than the window**: the bytes that fit are stored, nothing past the window
+    is touched, and the call returns `Err(SectionOverrun)` — it never panics. -/
+theorem write_all_overrun (m : Mode) (d : Dev) (r : Range) (buf : List Nat)
+    (hp : r.pos % 2 = 0) (he : r.endp % 2 = 0) (hle : r.pos ≤ r.endp) (hlt : r.endp ≤ 131072)
+    (hnofit : r.endp < r.pos + 2 * ((buf.length + 1) / 2)) :
+    (Range.writeAll m d r buf).1.1 = .err .overrun ∧
+    (Range.writeAll m d r buf).2.rd = storeAt d.rd r.pos ((padEven buf).take (r.endp - r.pos)) ∧
+    (Range.writeAll m d r buf).2.log = d.log ++ wordsAt (r.pos / 2) ((padEven buf).take (r.endp - r.pos)) := by
+  have h := writeAll_overrun m d r buf hp he hle hlt hnofit
+  rw [h.2]
+  exact ⟨h.1, rfl, rfl⟩
 
 /-- A device whose memory is all zero, for the concrete witnesses below. -/
 def dev0 : Dev := ⟨fun _ => 0, 4, []⟩
 
-/-- The full statement of `write_all_exact` is FALSE of the code for odd lengths: the three bytes are stored
-    (zero padded) and then `write_all` panics slicing `&buf[2..]` of a one-byte rest, because `write` reports
-    2 bytes for the padded last byte. -/
-theorem write_all_odd_counterexample :
-    (Range.writeAll .checked dev0 ⟨8, 12⟩ [1, 2, 3]).1.1 = .panic "write_all:slice" ∧
-    (Range.writeAll .wrapping dev0 ⟨8, 12⟩ [1, 2, 3]).1.1 = .panic "write_all:slice" ∧
+/-- FIXED (was `write_all_odd_counterexample`: the three bytes were stored, then `write_all` panicked slicing
+    `&buf[2..]` of a one-byte rest because `write` reported 2 bytes for the padded last byte): `Ok`, same
+    words written. -/
+theorem write_all_odd_fixed :
+    (Range.writeAll .checked dev0 ⟨8, 12⟩ [1, 2, 3]).1.1 = .ok ⟨12, 12⟩ ∧
+    (Range.writeAll .wrapping dev0 ⟨8, 12⟩ [1, 2, 3]).1.1 = .ok ⟨12, 12⟩ ∧
     (Range.writeAll .checked dev0 ⟨8, 12⟩ [1, 2, 3]).2.log = [(4, 1, 2), (5, 3, 0)] := by
   decide
 
-/-- ... and for payloads longer than the window (`write` returns `Ok(0)` ⇒ `panic!("write() returned Ok(0)")`):
-    `start_at(word, 1)` — what `eeprom_write_dangerously::<u8>` builds — is an empty window. -/
-theorem write_all_overrun_counterexample :
-    (startAt .checked 4 1).1 = .ok ⟨8, 8⟩ ∧
-    (Range.writeAll .checked dev0 ⟨8, 8⟩ [0xaa]).1.1 = .panic "write_all:zero" ∧
-    (Range.writeAll .wrapping dev0 ⟨8, 10⟩ [1, 2, 3, 4]).1.1 = .panic "write_all:zero" := by
+/-- FIXED (was `write_all_overrun_counterexample`: `write` returned `Ok(0)` on an exhausted window and
+    `write_all` panicked "write() returned Ok(0)"; `start_at(word, 1)` — what `eeprom_write_dangerously::<u8>`
+    builds — was an empty window): `start_at(4, 1)` is the one-word window and the byte is written; a payload
+    longer than its window ends with `Err(SectionOverrun)`. -/
+theorem write_all_overrun_fixed :
+    (startAt .checked 4 1).1 = .ok ⟨8, 10⟩ ∧
+    (Range.writeAll .checked dev0 ⟨8, 10⟩ [0xaa]).1.1 = .ok ⟨10, 10⟩ ∧
+    (Range.writeAll .checked dev0 ⟨8, 10⟩ [0xaa]).2.log = [(4, 0xaa, 0)] ∧
+    (Range.writeAll .checked dev0 ⟨8, 8⟩ [0xaa]).1.1 = .err .overrun ∧
+    (Range.writeAll .wrapping dev0 ⟨8, 10⟩ [1, 2, 3, 4]).1.1 = .err .overrun ∧
+    (Range.writeAll .wrapping dev0 ⟨8, 10⟩ [1, 2, 3, 4]).2.log = [(4, 1, 2)] := by
   decide
 
-/-- `EepromRange::new(start_word, len_words)`, PARTIAL: without u16 overflow the window is the byte range of
-    the words asked for, word aligned — the hypotheses of `write_exact`. -/
-theorem range_new_partial (m : Mode) (w n : Nat) (h : 2 * w + 2 * n < 65536) :
-    Range.new m w n = ret ⟨2 * w, 2 * w + 2 * n⟩ := by
-  unfold Range.new
-  rw [mul16_ok _ _ _ _ (by omega), mul16_ok _ _ _ _ (by omega)]
-  simp only [bind_ret]
-  rw [add16_ok _ _ _ _ (by omega)]
-  simp only [bind_ret]
+/-- **`EepromRange::new(start_word, len_words)`, every word address** (was `range_new_partial`): the window is
+    the byte range of the words asked for, clipped to the end of the 2^16-word address space; it is word aligned
+    and inside the address space — the hypotheses of `write_exact` — for EVERY `u16` start and length, in both
+    build modes. -/
+theorem range_new_exact (m : Mode) (w n : Nat) (hw : w < 65536) :
+    Range.new m w n = ret ⟨2 * w, min (2 * w + 2 * n) 131072⟩ ∧
+    (2 * w) % 2 = 0 ∧ (min (2 * w + 2 * n) 131072) % 2 = 0 ∧ 2 * w ≤ min (2 * w + 2 * n) 131072 ∧
+    min (2 * w + 2 * n) 131072 ≤ 131072 := by
+  refine ⟨?_, by omega, by omega, by omega, by omega⟩
+  unfold Range.new ADDRESS_SPACE_BYTES
   congr 2 <;> omega
 
-/-- The full statement ("any word address") is FALSE of the code: word addresses from 0x8000 (and windows
-    ending at byte 65536) overflow the 16-bit byte cursor: a panic in checked builds, a window at the wrong
-    place (word 0 instead of word 0x8000) in wrapping builds. -/
-theorem range_new_overflow_counterexample :
-    (Range.new .checked 0x8000 1).1 = .panic "new:mul" ∧
-    (Range.new .wrapping 0x8000 1).1 = .ok ⟨0, 2⟩ ∧
-    (Range.new .checked 0x7fff 1).1 = .panic "new:add" ∧
-    (Range.new .wrapping 0x7fff 1).1 = .ok ⟨65534, 0⟩ := by
+/-- FIXED (was `range_new_overflow_counterexample`: `start_word * 2` in `u16` panicked in checked builds and put
+    the window at word 0 in wrapping builds): word 0x8000 is byte 0x10000 in both build modes, and the last
+    word of the address space is a window of two bytes. -/
+theorem range_new_overflow_fixed :
+    (Range.new .checked 0x8000 1).1 = .ok ⟨65536, 65538⟩ ∧
+    (Range.new .wrapping 0x8000 1).1 = .ok ⟨65536, 65538⟩ ∧
+    (Range.new .checked 0xffff 1).1 = .ok ⟨131070, 131072⟩ ∧
+    (Range.new .wrapping 0xffff 4).1 = .ok ⟨131070, 131072⟩ := by
   decide
 
 /-- **Retry bound.** For every device script: `write_word` makes between 1 and 21 attempts; it stops at the
